@@ -23,7 +23,7 @@ ASSUMPTIONS = [
     'the number of *_value_changed notifications is not asserted (not stated); notify is only exercised',
     'evaluated at quiescence of a manager stepped by tick() from the checking thread',
 ]
-REQUIRED = ['falsy_result', 'handler_resumed_from_call', 'base_exception_raised', 'raise_plus_generator', 'generator_raises_at_step', 'multi_value_list', 'single_value_scalar', 'success_requested',
+REQUIRED = ['handler_of_an_exception_event_raised', 'falsy_result', 'handler_resumed_from_call', 'base_exception_raised', 'raise_plus_generator', 'generator_raises_at_step', 'multi_value_list', 'single_value_scalar', 'success_requested',
             'failure_requested', 'notify_requested', 'success_channels_override', 'child_event_from_handler', 'two_raises_one_event',
             'same_event_object_fired_again', 'event_object_fired_again_after_a_handler_raised', 'handler_returned_nested_value',
             'nested_value_next_to_a_raising_handler', 'handler_call_timed_out', 'handler_called_again_right_after_timeout']
@@ -211,6 +211,8 @@ def evaluate(case, w, problems, canary, norm):
                 marks.add('handler_called_again_right_after_timeout')
         if any(h.get('shape') in ('XB', 'GXB1') for h in decl):
             marks.add('base_exception_raised')
+        if info['name'] == 'exception' and raises:
+            marks.add('handler_of_an_exception_event_raised')
         if any(h.get('shape') == 'X' for h in decl) and any(h.get('gen') and not h['shape'].startswith('GX') for h in decl):
             marks.add('raise_plus_generator')
         if any((h.get('shape') or '').startswith('GX') for h in decl):
@@ -264,6 +266,13 @@ def corpus():
     for shapes in (['GTy'], ['GTC'], ['GTW'], ['GTCT'], ['GTX'], ['GTC', 'R'], ['G2vv', 'GTC'], ['GTC', 'GX1'], ['GTW', 'GTC'], ['X', 'GTC'], ['GTC', 'RV']):
         for fl in (ALLF, {'success': True}):
             cs.append({'handlers': mk_handlers('e', shapes), 'fires': [{'name': 'e', 'flags': fl}], 'under_run': True})
+    # the application's own handlers of `exception` events - which may fail themselves: an `exception` event is an event like any other
+    EH = [{'hid': 90, 'name': 'exception', 'prio': 10, 'gen': False, 'body': [['raise_first_level']], 'shape': 'EX1'},
+          {'hid': 91, 'name': 'exception', 'prio': 5, 'gen': False, 'body': [['ret', 'noted']], 'shape': 'R'}]
+    for shapes in (['X'], ['X', 'R'], ['GX1', 'R'], ['R', 'X', 'G1v'], ['X', 'X'], ['R']):
+        for fl in (ALLF, {'failure': True}, {}):
+            cs.append({'handlers': mk_handlers('e', shapes) + [dict(h) for h in EH], 'fires': [{'name': 'e', 'flags': fl}]})
+            cs.append({'handlers': mk_handlers('e', shapes) + [dict(EH[0])], 'fires': [{'name': 'e', 'flags': fl}, {'name': 'e', 'flags': fl}]})
     # events whose name is not the name of their class (a class with a name attribute; an instance renamed after construction)
     for mk in ('attr', 'renamed'):
         for shapes in (['R'], ['X', 'G1v'], ['G2vv', 'R'], ['GX1'], ['N'], ['RV', 'R'], ['G1v', 'X', 'R']):
@@ -312,6 +321,11 @@ def gen_case(rng):
         if rng.random() < 0.2:
             spec['success_channels'] = ['other']
         fires.append(spec)
+    if rng.random() < 0.2:
+        # the application handles `exception` events itself, and one of those handlers may fail when it is told about an ordinary failure
+        handlers.append({'hid': hid, 'name': 'exception', 'prio': rng.choice([10, 0, -3]), 'gen': False, 'body': [['raise_first_level']], 'shape': 'EX1'})
+        if rng.random() < 0.6:
+            handlers.append({'hid': hid + 1, 'name': 'exception', 'prio': rng.choice([5, 0, -5]), 'gen': False, 'body': [['ret', 'noted']], 'shape': 'R'})
     case = {'handlers': handlers, 'fires': fires}
     if rng.random() < 0.3:
         case['mk'] = rng.choice(['attr', 'renamed'])
@@ -321,7 +335,7 @@ def gen_case(rng):
         # under run(), some handlers replaced by ones whose call()/wait() times out
         case['under_run'] = True
         for h in handlers:
-            if rng.random() < 0.3:
+            if h['name'] != 'exception' and rng.random() < 0.3:
                 sh = rng.choice(sorted(TIMEOUT_SHAPES))
                 gen, body = TIMEOUT_SHAPES[sh]
                 h.update(gen=gen, body=[list(a) for a in body], shape=sh)
